@@ -102,6 +102,7 @@ class ScriptedSession(FakeSession):
         if self._closed:
             env.log('attempt', who=who, session=self.name, answer='closed')
             raise RuntimeError("Session is closed")
+        issued = env.now
         lat = getattr(self, 'latency', {}).get(who)
         if lat:
             await asyncio.sleep(lat)     # a slow answer: it may arrive after somebody else has already re-authenticated
@@ -109,14 +110,14 @@ class ScriptedSession(FakeSession):
         if who in first and not env.counters.get(f'first:{self.name}:{who}'):
             # this request's first attempt meets a server error instead (it will sleep in its backoff while others re-authenticate)
             env.count(f'first:{self.name}:{who}')
-            env.log('attempt', who=who, session=self.name, answer=first[who])
+            env.log('attempt', who=who, session=self.name, answer=first[who], issued=issued)
             return FakeResponse(status=int(first[who]), headers={}, body=status_body(int(first[who])), url=url, method=method)
         if not self.valid:
-            env.log('attempt', who=who, session=self.name, answer='401')
+            env.log('attempt', who=who, session=self.name, answer='401', issued=issued)
             return FakeResponse(status=401, headers={}, body=status_body(401), url=url, method=method)
         i = env.count(f'attempt:{who}') - 1
         kind = self.script[i] if i < len(self.script) else 'ok'
-        env.log('attempt', who=who, session=self.name, answer=kind, i=i)
+        env.log('attempt', who=who, session=self.name, answer=kind, i=i, issued=issued)
         if kind == 'ok':
             return FakeResponse(status=200, headers={}, body={'kind': 'KopfExample', 'metadata': {'name': 'a'}}, url=url, method=method)
         if kind == 'conn':
@@ -270,6 +271,16 @@ class ReauthScenario(Scenario):
                 if prev is not None and prev > p['session']:
                     out.append(self.viol(env, 'stale-credentials-reused', f"t={t}: request {p['who']} went back from session {prev} to the invalidated {p['session']}"))
                 last_session[p['who']] = p['session']
+        # once the 401 on a session has come back (it is invalidated from then on), no request is SENT on it any more - also not the
+        # retry of a request that was sleeping in its backoff meanwhile (requests sent before that moment may still come back with 401)
+        first_401: dict[str, float] = {}
+        for t, k, p in env.obs:
+            if k == 'attempt' and p['answer'] == '401':
+                first_401.setdefault(p['session'], t)
+        for t, k, p in env.obs:
+            if k == 'attempt' and p['answer'] != 'closed' and p['session'] in first_401 and p.get('issued', t) > first_401[p['session']] + 1e-9:
+                out.append(self.viol(env, 'stale-credentials-reused', f"t={p.get('issued', t)}: request {p['who']} was sent on session {p['session']}, which had been "
+                                                                      f"answered 401 at t={first_401[p['session']]} (invalidated credentials)", how='sent-after-invalidation'))
         final_sessions = {p['who']: p['session'] for _, k, p in env.obs if k == 'attempt' and p['answer'] == 'ok'}
         want_final = 's3' if self.params.get('second_expires') else 's2'
         for who, s in final_sessions.items():
